@@ -55,3 +55,74 @@ R.implements(f'{SR}.wait', f'{RN}.wait#yield', self_type='Obj[SerialRunner]',
                 "INV(self)", "self.results_map == old(self.results_map)",
                 "Inst_to_Task(task) not in INFLIGHT(self)", "Inst_to_Task(task) in old(INFLIGHT(self))",
                 "subset(INFLIGHT(self), old(INFLIGHT(self)))"])
+
+# ------------------------------------------------------------------ ProcessRunner
+R.func('res_of', ['Res'], 'Task')        # GHOST: the task whose execution/load produced this result object
+R.func('fut_task', ['Fut'], 'Task')      # GHOST: the task a future was created for (fixed at creation: the thunk closes over it)
+R.macros['RESOK'] = (['m'], "forall('Task', lambda d: implies(d in m, (res_of(m[d]) == d) and (m[d].value == EVAL(d))))")
+R.contracts['labtech.runners.base:run_or_load_task'].ensures.append(
+    C("res_of(result) == Inst_to_Task(task)", 'the result object belongs to this task', serves=('C01',)))
+
+R.contract(f'{PRK}._consume_log_queue', self_type='Obj[ProcessRunner]', params={}, frame=[], trusted=True,
+    note='log forwarding; its delivery contract is C19\'s (contracts/c70_logging.py)')
+R.contract(f'{PRK}._submit_task', abstract=True, self_type='Obj[ProcessRunner]',
+    params={'executor': 'Obj[ProcessExecutor]', 'task': 'Inst', 'task_name': 'Str', 'use_cache': 'Bool',
+            'process_event_queue': 'Queue', 'log_queue': 'Queue'}, returns='Fut',
+    requires=['INV(executor)'],
+    ensures=['INV(executor)',
+             C("fut_task(result) == Inst_to_Task(task)", 'the future runs this task'),
+             C("(result in PEND(executor)) or ((result.id in RUN(executor)) and (RUN(executor)[result.id][0] == result))", 'the new future is queued or running', serves=('C11', 'C01', 'C10')),
+             C("(result not in old(PEND(executor))) and (result.id not in old(RUN(executor))) and (not result.done)", 'the future is new'),
+             C("forall('Fut', lambda f: implies(f in old(PEND(executor)), (f in PEND(executor)) or ((f.id in RUN(executor)) and (RUN(executor)[f.id][0] == f))))", 'nothing queued is lost', serves=('C11',)),
+             C("forall('Fid', lambda i: implies(i in old(RUN(executor)), (i in RUN(executor)) and (RUN(executor)[i] == old(RUN(executor))[i])))", 'running entries kept'),
+             C("forall('Fut', lambda f: implies(f != result, f._state == old(f._state)))", 'other futures untouched'),
+             ],
+    frame=['executor._pending_future_to_thunk', 'executor._running_id_to_future_and_process', 'Fut._state', 'Fut._ex', 'Fut._result'])
+
+R.implements(f'{PRK}.submit_task', f'{RN}.submit_task', self_type='Obj[ProcessRunner]',
+    params={'task': 'Inst', 'task_name': 'Str', 'use_cache': 'Bool'},
+    extra_requires=['INV(self)', C("forall('Fut', lambda f: implies(f in self.future_to_task, fut_task(f) == Inst_to_Task(self.future_to_task[f])))", 'P4')],
+    extra_ensures=['INV(self)', C("forall('Fut', lambda f: implies(f in self.future_to_task, fut_task(f) == Inst_to_Task(self.future_to_task[f])))", 'P4')],
+    frame=['self.future_to_task', 'self.executor._pending_future_to_thunk', 'self.executor._running_id_to_future_and_process',
+           'Fut._state', 'Fut._ex', 'Fut._result'],
+    assume_after={'_submit_task': [C("result not in self.future_to_task", 'A-fresh: a newly created Future object is not a key of any existing dict')]})
+
+R.implements(f'{PRK}.cancel', f'{RN}.cancel', self_type='Obj[ProcessRunner]',
+    extra_requires=['INV(self)'], extra_ensures=['INV(self)'],
+    frame=['self.executor._pending_future_to_thunk', 'Fut._state'])
+R.implements(f'{PRK}.stop', f'{RN}.stop', self_type='Obj[ProcessRunner]',
+    extra_requires=['INV(self)'], extra_ensures=['INV(self)'],
+    frame=['self.executor._running_id_to_future_and_process', 'Fut._state'])
+
+R.implements(f'{PRK}.wait', f'{RN}.wait#yield', self_type='Obj[ProcessRunner]',
+    params={'timeout_seconds': 'Opt[Int]'}, returns='None',
+    extra_requires=['INV(self)', C("forall('Fut', lambda f: implies(f in self.future_to_task, fut_task(f) == Inst_to_Task(self.future_to_task[f])))", 'P4')],
+    ensures=[C('INV(self)'), C("subset(INFLIGHT(self), old(INFLIGHT(self)))", 'wait only removes from the in-flight set'),
+             C("forall('Fut', lambda f: implies(f in self.future_to_task, fut_task(f) == Inst_to_Task(self.future_to_task[f])))", 'P4'),
+             C("forall('Fut', lambda f: implies(f in self.future_to_task, not f.done))", 'every future that was done is pruned: a finished task never stays in flight', serves=('C11', 'C14'))],
+    yields=WAIT_YIELDS,
+    rely=['self.results_map'],
+    rely_ensures=[C("forall('Task', lambda k: implies(k in self.results_map, (k in old(self.results_map)) and (self.results_map[k] == old(self.results_map)[k])))", 'the consumer only removes results')],
+    raises={},
+    assume_after={'result': [C("(res_of(result) == fut_task(recv)) and (result.value == EVAL(fut_task(recv)))",
+                               'A-proc: a future that finished without exception carries what _subprocess_func returned in the child for the task the future was created for, computed from the results handed over at submit/start')]},
+    cand_locals=('done',),
+    frame=['self.future_to_task', 'self.results_map', 'self.executor._pending_future_to_thunk',
+           'self.executor._running_id_to_future_and_process', 'Fut._state', 'Fut._ex', 'Fut._result'],
+    candidates=[
+        "INV(self.executor)",
+        "forall('Fut', lambda f: implies(f in done, f in old(self.future_to_task)))",
+        "forall('Fut', lambda f: implies(f in done, f.done))",
+        "forall('Fut', lambda f: implies((f in old(self.future_to_task)) and (not f.done), f not in done))",
+        "forall('Fut', lambda f: implies(f in self.future_to_task, (f in old(self.future_to_task)) and (self.future_to_task[f] == old(self.future_to_task)[f])))",
+        "forall('Fut', lambda f: implies((f in old(self.future_to_task)) and (f not in __done__), f in self.future_to_task))",
+        "forall('Fut', lambda f: implies(f in __done__, f not in self.future_to_task))",
+        "forall('Fut', lambda f: implies(f in self.future_to_task, fut_task(f) == Inst_to_Task(self.future_to_task[f])))",
+        "forall('Fut','Fut', lambda a, b: implies((a in self.future_to_task) and (b in self.future_to_task) and (Inst_to_Task(self.future_to_task[a]) == Inst_to_Task(self.future_to_task[b])), a == b))",
+        "forall('Fut','Fut', lambda a, b: implies((a in old(self.future_to_task)) and (b in old(self.future_to_task)) and (Inst_to_Task(old(self.future_to_task)[a]) == Inst_to_Task(old(self.future_to_task)[b])), a == b))",
+        "forall('Fut', lambda a: implies(a in self.future_to_task, Inst_to_Task(self.future_to_task[a]) not in self.results_map))",
+        "forall('Fut', lambda f: implies(f in self.future_to_task, f.done or (f in PEND(self.executor)) or ((f.id in RUN(self.executor)) and (RUN(self.executor)[f.id][0] == f))))",
+        "implies(old(RESOK(self.results_map)), RESOK(self.results_map))",
+        "forall('Fut', lambda f: implies((f in self.future_to_task) and (f not in done), not f.done))",
+        "forall('Fut', lambda f: implies((f in old(self.future_to_task)) and (f not in done), not f.done))",
+    ])
